@@ -77,6 +77,18 @@ pub struct ProbeObs {
     pub seen_ret_addr: u64,
     pub seen_stack: Vec<u64>,
     pub seen_xmm: Vec<(u64, u64)>,
+    /// AVX present: upper halves of ymm0-7 as the fake saw them / as the caller set them, and the
+    /// upper half of ymm0 after the return / as the fake returned it
+    #[serde(default)]
+    pub wide: bool,
+    #[serde(default)]
+    pub seen_ymm_hi: Vec<(u64, u64)>,
+    #[serde(default)]
+    pub set_ymm_hi: Vec<(u64, u64)>,
+    #[serde(default)]
+    pub out_ymm0_hi: (u64, u64),
+    #[serde(default)]
+    pub ret_ymm0_hi: (u64, u64),
     pub caller_rsp_at_call: u64,
     pub ret_site: u64,
     pub out_rax: u64,
@@ -238,6 +250,11 @@ fn execute_inner(c: &ProbeCase) -> ProbeObs {
     o.seen_ret_addr = rec.ret_addr;
     o.seen_stack = rec.stack.to_vec();
     o.seen_xmm = rec.xmm.iter().map(|x| (x[0], x[1])).collect();
+    o.wide = ctx.wide != 0;
+    o.seen_ymm_hi = rec.ymm_hi.iter().map(|x| (x[0], x[1])).collect();
+    o.set_ymm_hi = ctx.ymm_hi.iter().map(|x| (x[0], x[1])).collect();
+    o.out_ymm0_hi = (ctx.out_ymm0_hi[0], ctx.out_ymm0_hi[1]);
+    o.ret_ymm0_hi = (rec.ret_ymm0_hi[0], rec.ret_ymm0_hi[1]);
     o.caller_rsp_at_call = ctx.scratch_rsp;
     o.ret_site = ret_site();
     o.out_rax = ctx.out_rax;
@@ -344,6 +361,14 @@ pub fn judge(rec: &mut Recorder, c: &ProbeCase, ex: Exec, _hello: &Value) -> Res
                     return rec.fail(&sig(&format!("vector-register-changed/xmm{i}")), format!("fake saw xmm{i}={:x?}, caller set {:x?}", o.seen_xmm[i], c.regs.xmm[i]));
                 }
             }
+            if o.wide && o.seen_ymm_hi.len() == 8 && o.set_ymm_hi.len() == 8 {
+                rec.class("fake/256-bit-vector-arguments");
+                for i in 0..8 {
+                    if o.seen_ymm_hi[i] != o.set_ymm_hi[i] {
+                        return rec.fail(&sig(&format!("vector-register-changed/ymm{i}-upper-half")), format!("fake saw bits 128..255 of ymm{i} = {:x?}, caller set {:x?} (a 256-bit vector argument is passed in the full register; the low half arrived intact)", o.seen_ymm_hi[i], o.set_ymm_hi[i]));
+                    }
+                }
+            }
             for i in 0..6 {
                 if o.seen_callee[i] != c.regs.callee[i] {
                     return rec.fail(&sig(&format!("callee-saved-changed-on-entry/{}", names[i])), format!("fake saw {}={:#x}, caller had {:#x}", names[i], o.seen_callee[i], c.regs.callee[i]));
@@ -359,6 +384,9 @@ pub fn judge(rec: &mut Recorder, c: &ProbeCase, ex: Exec, _hello: &Value) -> Res
             }
             if o.out_rax != c.regs.ret_rax || o.out_rdx != c.regs.ret_rdx || o.out_xmm0 != c.regs.ret_xmm0 || o.out_xmm1 != c.regs.ret_xmm1 {
                 return rec.fail(&sig("return-value-changed"), format!("caller saw rax={:#x} rdx={:#x} xmm0={:x?} xmm1={:x?}; fake returned rax={:#x} rdx={:#x} xmm0={:x?} xmm1={:x?}", o.out_rax, o.out_rdx, o.out_xmm0, o.out_xmm1, c.regs.ret_rax, c.regs.ret_rdx, c.regs.ret_xmm0, c.regs.ret_xmm1));
+            }
+            if o.wide && o.out_ymm0_hi != o.ret_ymm0_hi {
+                return rec.fail(&sig("return-value-changed/ymm0-upper-half"), format!("caller saw bits 128..255 of ymm0 = {:x?}; the fake returned {:x?} (a 256-bit vector is returned in the full register)", o.out_ymm0_hi, o.ret_ymm0_hi));
             }
         }
         ProbeMode::Bool(v) => {
